@@ -1,7 +1,9 @@
 SPECIFICATION Spec
 CONSTANTS
-  MaxClock = 12
+  MaxClock = 600
   MaxStep = 2
+  BigSteps = {30, 110}
+  Enabled = {"tick", "sched", "manual", "dry", "range", "from", "until", "fault", "update", "restart"}
   MaxCmds = 3
   Points = {1, 7, 13}
   Weight = 1
